@@ -22,6 +22,12 @@
     to the given file", "Assert the copy of a file"): the operation is performed — the post-state is
     the state after the corresponding vfs call — and the assertion holds iff that call succeeded and
     its postcondition holds in the post-state.
+  * Documented exceptions (`documentedNoop`): "Assert the creation of a symlink. If the symlink exists
+    no change is made" and "Assert the creation of a file. If the file exists no change is made" —
+    `assert_vfs_symlink!` on an existing link (whatever it points to) and `assert_vfs_mkfile!` on an
+    existing regular file hold and leave the state alone. `assert_vfs_write_all!` has no such exception.
+    Likewise "Assert the removal of the target file or directory" of a path that does not exist holds
+    with nothing to do (`vfs.remove` itself may even fail there, e.g. below a regular file).
 -/
 import Rivia.Model.Macros
 import Rivia.Spec.MemfsJudge
@@ -128,12 +134,22 @@ def postSpec (env : Env) (s' : State) : MacroCall → Bool
   | .removeAll p => resolvable env s' p && !pExists env s' p
   | _ => true
 
+/-- the cases in which nothing has to be done: the documented "if it exists no change is made" of
+    `symlink` / `mkfile`, and `remove` of a path that does not exist (its postcondition holds) -/
+def documentedNoop (env : Env) (s : State) : MacroCall → Bool
+  | .symlink l _ => pIsLink env s l
+  | .mkfile p => pIsFile env s p
+  | .remove p => resolvable env s p && !pExists env s p
+  | _ => false
+
 /-- (should the macro pass, expected post-state) -/
 def macroSpec (env : Env) (s : State) (m : MacroCall) : Bool × State :=
-  match opOf m with
-  | none => (checkSpec env s m, s)
-  | some op =>
-    let r := step env s op
-    (r.1.isOk && postSpec env r.2 m, r.2)
+  if documentedNoop env s m then (true, s)
+  else match opOf m with
+    | none => (checkSpec env s m, s)
+    | some op =>
+      let r := step env s op
+      (r.1.isOk && postSpec env r.2 m, r.2)
 
 end Rivia.Spec.MacroSpec
+
